@@ -16,6 +16,10 @@ def _ok(f):
     return f.get("sonic") == "ok"
 
 
+_STD_ERR_CLASS = {"marshaler": ("marshaler",), "unsupported_type": ("unsupported_type",),
+                  "unsupported_value": ("unsupported_value", "other")}
+
+
 class C03(Spec):
     prop = "C03"
     lean_modules = ["SonicSpec.Props.C03"]
@@ -56,7 +60,22 @@ class C03(Spec):
         s = sonic.get("default") or {}
         m = model.get("default") or {}
         mv = m.get("model", "unsupported")
-        if mv in ("unsupported", "") or s.get("sonic") in ("PANIC", "CRASH", "HANG", None):
+        if s.get("sonic") in ("PANIC", "CRASH", "HANG", None):
+            return False
+        # the specification of encoding/json itself (Model/EncStd.lean) against the real encoding/json: every case,
+        # omitzero included (neither honours it on this toolchain)
+        # the specification writes bytes: its output must be encoding/json's output byte for byte, and its error
+        # must be of the class encoding/json reports ("other" = the invalid json.Number text, a plain error in Go)
+        sv = m.get("std", "~")
+        if sv not in ("~", "unsupported", ""):
+            ref = s.get("ref")
+            if (sv == "ok") != (ref == "ok"):
+                return True
+            if sv == "ok" and (m.get("xr") == "ne" or m.get("stdout", "") != s.get("rout", "")):
+                return True
+            if sv.startswith("err:") and ref not in _STD_ERR_CLASS.get(sv[4:], (ref,)):
+                return True
+        if mv in ("unsupported", ""):
             return False
         if "omitzero" in _enc.features(case):
             return False          # Go 1.23.5 encoding/json ignores omitzero: the model is the only reference
